@@ -165,6 +165,10 @@ def parseEx? (p : String) : Option (Nat × Int × Nat) :=
     pure ((← lid.toNat?), t, v)
   | _ => none
 
+/-- `last=<lastSeriesID>` of one replay's state line. -/
+def lastOf? (s : String) : Option Nat :=
+  ((toks s).find? (·.startsWith "last=")).bind fun t => (t.drop 5).toString.toNat?
+
 def parseMem? (s : String) : Option PState :=
   match toks s with
   | [ser, _exp, ex, _win, _last] =>
@@ -187,6 +191,10 @@ deriving Repr, Inhabited
 structure J where
   committed : List Ack := []
   maxMint : Option Int := none
+  /-- some earlier restart replayed the truncated log to a LOWER lastSeriesID than the retained full log
+      (the checkpoint dropped the series record of the highest ref, finding C22-F2): refs can since have
+      been issued twice, and the full log is then no valid reference for the truncated one. -/
+  refLow : Bool := false
 
 def needed (j : J) (t : Int) : Bool := match j.maxMint with | none => true | some m => decide (t ≥ m)
 
@@ -327,9 +335,15 @@ def judgeStep (j : J) (op out : String) : Except String J :=
           | .ok _ =>
             match parseMem? mem, parseMem? full with
             | some a, some b =>
+              let low : Bool := match lastOf? mem, lastOf? full with
+                | some x, some y => decide (x < y)
+                | _, _ => false
               match replayViolation j a b with
-              | some e => .error e
-              | none => .ok j
+              | some e =>
+                if (j.refLow || low) && decide ((e.splitOn "kind=").length < 2)
+                then .error ((e.replace "replay-differs what=" "replay-differs kind=ref-reissued-after-checkpoint what="))
+                else .error e
+              | none => .ok { j with refLow := j.refLow || low }
             | _, _ => .error s!"unparsable-output {mem.take 80}"
         | _ => .error s!"unparsable-output {out.take 80}"
       | _ => .error s!"unparsable-output {out.take 80}"
